@@ -76,11 +76,17 @@ def rand_mdiff(rnd):
     return ['Modify', es]
 
 
-def damage(rnd, bs, fmt):
-    """a malformed variant of a valid encoding: unknown discriminant or truncation"""
+def damage(rnd, bs, fmt, modify_with_entries=False):
+    """a malformed variant of a valid encoding: truncation, unknown outer discriminant, unknown discriminant of the first change"""
     bs = list(bs)
-    if rnd.random() < 0.5 and bs:
+    r = rnd.random()
+    if r < 0.4 and bs:
         return bs[:rnd.randrange(0, len(bs))], 'truncated'
+    if r < 0.7 and modify_with_entries:
+        off = (1 + 8) if fmt == 'nano' else (4 + 8)
+        if off < len(bs):
+            bs[off] = rnd.choice([6, 7, 99, 255])
+            return bs, 'bad-inner-discriminant'
     # overwrite the outer discriminant with an unknown one
     if fmt == 'nano':
         bs[0] = rnd.choice([2, 6, 99, 255])
@@ -97,7 +103,8 @@ def run(res, binp, tier, seed):
     up = unord.uarr_pairs(tier, seed + 3)[:nu]
     mp = unord.umap_pairs(tier, seed + 4)[:nu]
     lines = [sx.show(['uarr-cmp', p, c]) for (p, c) in up] + \
-            [sx.show(['umap-cmp', mode, p, c]) for (p, c, mode) in mp]
+            [sx.show(['umap-cmp', mode, p, c]) for (p, c, mode) in mp] + \
+            unord.umap_multi_requests(tier, seed)[:max(60, nu // 3)]     # repeated keys: the Many variants of the map codec
     rc, rows = core.run_oracle(binp, lines)
     jobs = []   # (kind, diff, real wire dict, request)
     for ln, row in zip(lines, rows):
@@ -152,7 +159,7 @@ def run(res, binp, tier, seed):
             bs = [int(b) for b in sx.field(enc, 'owned')[0]]
             ol.append(sx.show([('uarr' if k == 'u' else 'umap') + '-dec', fmt, bs])); meta.append((k, d, fmt, bs, 'valid'))
             if rnd.random() < 0.35:
-                bad, why = damage(rnd, bs, fmt)
+                bad, why = damage(rnd, bs, fmt, modify_with_entries=(d[0] == 'Modify' and len(d[1]) > 0))
                 ol.append(sx.show([('uarr' if k == 'u' else 'umap') + '-dec', fmt, bad])); meta.append((k, d, fmt, bad, why))
     rc, rows = core.run_oracle(binp, ol)
     dl = [sx.show([m[0] + 'dec', m[2], m[3]]) for m in meta]
